@@ -109,13 +109,16 @@ class Grammar:
         return sum(1 for _ in self._gen(sort, n, ()))
 
     # -- productions ------------------------------------------------------
+    DOMAIN_ELEMENT_SORT = {'AB': 'B', 'AS': 'S'}  # every other domain sort has numeric elements
+
     def _atoms(self, sort, env):
+        """env: tuple of (variable name, sort) pairs of the enclosing quantifiers."""
         out = list(self.atoms.get(sort, ()))
         if self.qvar_atoms is not None:
             if env:
-                out += self.qvar_atoms(env).get(sort, [])
-        elif sort == 'N':
-            out += [('var', v) for v in env]
+                out += self.qvar_atoms(tuple(v for v, _s in env)).get(sort, [])
+        else:
+            out += [('var', v) for v, s in env if s == sort]
         return out
 
     def _splits(self, total, parts):
@@ -176,13 +179,15 @@ class Grammar:
                     for a in E(asort, n - 1):
                         yield ('call', f, (a,))
             if self.quants:
-                free = [v for v in self.qvars if v not in env]
+                used = {v for v, _s in env}
+                free = [v for v in self.qvars if v not in used]
                 if free:
                     v = free[0]
                     for (i, j) in self._splits(n - 1, 2):
                         for ds in self.domains:
+                            vs = self.DOMAIN_ELEMENT_SORT.get(ds, 'N')
                             for d in E(ds, i):
-                                for body in self.exactly('B', j, env + (v,)):
+                                for body in self.exactly('B', j, env + ((v, vs),)):
                                     if not contains_var(body, v):
                                         continue
                                     for q in self.quants:
